@@ -1448,4 +1448,182 @@ theorem parseToks_toksModule (fmt : Nat → List Char) (fparse : String → Opti
   rw [eall', e4]
   simp [hfin, pure, Except.pure, normPhi]
 
+/-! ## printing the re-read module gives the same text (sorting is idempotent) -/
+
+theorem pairLe_total (p q : String × String) (h : pairLe p q = false) : pairLe q p = true := by
+  obtain ⟨p1, p2⟩ := p
+  obtain ⟨q1, q2⟩ := q
+  simp only [pairLe, Bool.or_eq_false_iff, Bool.and_eq_false_iff, decide_eq_false_iff_not, beq_eq_false_iff_ne,
+    ne_eq] at h
+  obtain ⟨h1, h2⟩ := h
+  simp only [pairLe, Bool.or_eq_true, Bool.and_eq_true, decide_eq_true_eq, beq_iff_eq]
+  by_cases he : p1 = q1
+  · subst he
+    rcases h2 with h2 | ⟨h2, h3⟩
+    · exact absurd rfl h2
+    · right
+      refine ⟨rfl, ?_⟩
+      by_cases hlt : q2 < p2
+      · exact Or.inl hlt
+      · exact Or.inr (String.le_antisymm (String.not_lt.1 h2) (String.not_lt.1 hlt))
+  · left
+    by_cases hlt : q1 < p1
+    · exact hlt
+    · exact absurd (String.le_antisymm (String.not_lt.1 hlt) (String.not_lt.1 h1)) he
+
+def sortedP : List (String × String) → Prop
+  | [] => True
+  | [_] => True
+  | p :: q :: r => pairLe p q = true ∧ sortedP (q :: r)
+
+theorem sortedP_tail {p : String × String} {l : List (String × String)} (h : sortedP (p :: l)) : sortedP l := by
+  cases l with
+  | nil => trivial
+  | cons q r => exact h.2
+
+theorem insertPair_sorted (p : String × String) (l : List (String × String)) (h : sortedP l) :
+    sortedP (insertPair p l) := by
+  induction l with
+  | nil => trivial
+  | cons q r ih =>
+    simp only [insertPair]
+    by_cases hpq : pairLe p q = true
+    · simp only [hpq, if_true]; exact ⟨hpq, h⟩
+    · simp only [hpq, Bool.false_eq_true, if_false]
+      have hqp : pairLe q p = true := pairLe_total p q (by simpa using hpq)
+      have ih' := ih (sortedP_tail h)
+      cases r with
+      | nil => exact ⟨hqp, trivial⟩
+      | cons x xs =>
+        simp only [insertPair] at ih' ⊢
+        by_cases hpx : pairLe p x = true
+        · simp only [hpx, if_true] at ih' ⊢
+          exact ⟨hqp, ih'⟩
+        · simp only [hpx, Bool.false_eq_true, if_false] at ih' ⊢
+          exact ⟨h.1, ih'⟩
+
+theorem sortPairs_sorted (l : List (String × String)) : sortedP (sortPairs l) := by
+  induction l with
+  | nil => trivial
+  | cons p r ih => exact insertPair_sorted p _ ih
+
+theorem sortPairs_of_sorted (l : List (String × String)) (h : sortedP l) : sortPairs l = l := by
+  induction l with
+  | nil => rfl
+  | cons p r ih =>
+    simp only [sortPairs, ih (sortedP_tail h)]
+    cases r with
+    | nil => rfl
+    | cons q r' => simp [insertPair, h.1]
+
+theorem sortPairs_idem (l : List (String × String)) : sortPairs (sortPairs l) = sortPairs l :=
+  sortPairs_of_sorted _ (sortPairs_sorted l)
+
+theorem phiPairs_sortIns (ins : List (String × Operand)) : phiPairs (sortIns ins) = phiPairs ins := by
+  show sortPairs ((sortIns ins).map keyOf) = sortPairs (ins.map keyOf)
+  rw [← sortPairs_map ins]
+  exact sortPairs_idem _
+
+theorem instrToks_normPhi (fmt : Nat → List Char) (i : Instr) : instrToks fmt (normPhiInstr i) = instrToks fmt i := by
+  cases i with
+  | phi d ty ins =>
+    show tyToks ty ++ [Tok.id d, Tok.sym "=", Tok.id "phi"] ++
+        commaSepT ((phiPairs (sortIns ins)).map (fun p => [Tok.id p.1, Tok.sym ":", Tok.id p.2])) =
+      tyToks ty ++ [Tok.id d, Tok.sym "=", Tok.id "phi"] ++
+        commaSepT ((phiPairs ins).map (fun p => [Tok.id p.1, Tok.sym ":", Tok.id p.2]))
+    rw [phiPairs_sortIns]
+  | _ => rfl
+
+theorem instrChars_normPhi (fmt : Nat → List Char) (i : Instr) : instrChars fmt (normPhiInstr i) = instrChars fmt i := by
+  cases i with
+  | phi d ty ins =>
+    show tyChars ty ++ ' ' :: d.toList ++ " = phi ".toList ++
+        commaSep ((phiPairs (sortIns ins)).map (fun p => p.1.toList ++ ':' :: ' ' :: p.2.toList)) =
+      tyChars ty ++ ' ' :: d.toList ++ " = phi ".toList ++
+        commaSep ((phiPairs ins).map (fun p => p.1.toList ++ ':' :: ' ' :: p.2.toList))
+    rw [phiPairs_sortIns]
+  | _ => rfl
+
+theorem map_comp_congr {α β : Type} (f : α → β) (g : α → α) (l : List α) (h : ∀ a, f (g a) = f a) :
+    (l.map g).map f = l.map f := by
+  rw [List.map_map]
+  exact List.map_congr_left (fun a _ => h a)
+
+theorem toksModule_normPhi (fmt : Nat → List Char) (m : Module) : toksModule fmt (normPhi m) = toksModule fmt m := by
+  have hb : ∀ b : Block, blockToks fmt (normPhiBlock b) = blockToks fmt b := by
+    intro b
+    show [Tok.id b.name, Tok.sym ":", Tok.sym "{"] ++
+        ((b.instrs.map normPhiInstr).map (fun i => instrToks fmt i ++ [Tok.sym ";"])).flatten ++ [Tok.sym "}"] = _
+    rw [map_comp_congr _ _ _ (fun i => by rw [instrToks_normPhi])]
+    rfl
+  have hf : ∀ f : Func, funcToks fmt (normPhiFunc f) = funcToks fmt f := by
+    intro f
+    show [bindingTok f.isGlobal] ++ _ ++ [Tok.id f.name, Tok.sym "("] ++ _ ++ [Tok.sym ")", Tok.sym "{"] ++
+        ((f.blocks.map normPhiBlock).map (blockToks fmt)).flatten ++ [Tok.sym "}"] = _
+    rw [map_comp_congr _ _ _ hb]
+    rfl
+  show [Tok.id "module", Tok.id m.name, Tok.sym ";"] ++ _ ++ _ ++
+      ((m.funcs.map normPhiFunc).map (funcToks fmt)).flatten ++ [Tok.eof] = _
+  rw [map_comp_congr _ _ _ hf]
+  rfl
+
+theorem printModule_normPhi (fmt : Nat → List Char) (m : Module) : printModule fmt (normPhi m) = printModule fmt m := by
+  have hb : ∀ b : Block, blockChars fmt (normPhiBlock b) = blockChars fmt b := by
+    intro b
+    show "  ".toList ++ b.name.toList ++ ": {\n".toList ++
+        ((b.instrs.map normPhiInstr).map (fun i => "    ".toList ++ instrChars fmt i ++ ";\n".toList)).flatten ++
+        "  }\n\n".toList = _
+    rw [map_comp_congr _ _ _ (fun i => by rw [instrChars_normPhi])]
+    rfl
+  have hf : ∀ f : Func, funcChars fmt (normPhiFunc f) = funcChars fmt f := by
+    intro f
+    show '\n' :: funcHeadChars f ++ " {\n".toList ++ ((f.blocks.map normPhiBlock).map (blockChars fmt)).flatten ++
+        "}\n".toList = _
+    rw [map_comp_congr _ _ _ hb]
+    rfl
+  show "module ".toList ++ m.name.toList ++ ";\n".toList ++ _ ++ _ ++
+      ((m.funcs.map normPhiFunc).map (funcChars fmt)).flatten = _
+  rw [map_comp_congr _ _ _ hf]
+  rfl
+
+/-! ## the order of the inputs of a phi does not matter to `Spec.IR` -/
+
+theorem lookupStr_perm {β : Type} {l1 l2 : List (String × β)} (hp : l1.Perm l2) (hnd : (l1.map (·.1)).Nodup)
+    (k : String) : lookupStr l1 k = lookupStr l2 k := by
+  induction hp with
+  | nil => rfl
+  | cons x _ ih =>
+    obtain ⟨a, v⟩ := x
+    simp only [List.map_cons, List.nodup_cons] at hnd
+    simp only [lookupStr, ih hnd.2]
+  | swap x y l =>
+    obtain ⟨a, v⟩ := x
+    obtain ⟨b, w⟩ := y
+    simp only [List.map_cons, List.nodup_cons, List.mem_cons, not_or] at hnd
+    have hab : ¬ b = a := hnd.1.1
+    simp only [lookupStr]
+    by_cases hka : k = a
+    · subst hka
+      have : ¬ k = b := fun e => hab e.symm
+      simp [this]
+    · simp [hka]
+  | trans h1 _ ih1 ih2 =>
+    rw [ih1 hnd, ih2 ((h1.map (·.1)).nodup_iff.1 hnd)]
+
+/-- the values the phis of a block take on an edge are the same for the module as written and as read back -/
+theorem phiValues_normPhi (ctx : Ctx) (env : Env) (pred : String) (is : List Instr)
+    (h : ∀ i ∈ is, nodupB (i.phiIns.map (·.1)) = true) :
+    phiValues ctx env pred (is.map normPhiInstr) = phiValues ctx env pred is := by
+  induction is with
+  | nil => rfl
+  | cons i r ih =>
+    have hr := ih (fun j hj => h j (by simp [hj]))
+    cases i with
+    | phi d ty ins =>
+      have hnd : ((sortIns ins).map (·.1)).Nodup := by
+        have h0 : (ins.map (·.1)).Nodup := (nodupB_iff _).1 (by simpa [Instr.phiIns] using h (.phi d ty ins) (by simp))
+        exact ((sortIns_perm ins).map (·.1)).nodup_iff.2 h0
+      simp only [List.map_cons, normPhiInstr, phiValues, lookupStr_perm (sortIns_perm ins) hnd pred, hr]
+    | _ => simpa [normPhiInstr, phiValues] using hr
+
 end Proofs.IRText
